@@ -204,9 +204,30 @@ impl HCtx {
         let n = preps.len();
         let mut webs: Vec<WebServer> = vec![];
         let multi = mode == "multi" && self.l1.backend == Backend::Sqlite;
+        struct RmLinks(Vec<std::path::PathBuf>);
+        impl Drop for RmLinks {
+            fn drop(&mut self) {
+                for l in &self.0 {
+                    let _ = std::fs::remove_file(l);
+                }
+            }
+        }
+        let mut links = RmLinks(vec![]);
         if multi {
-            for _ in 0..n {
-                let st = SqliteStorage::new(&self.l1.data_dir()).expect("open sqlite");
+            for k in 0..n {
+                // the same directory under differently spelled paths (as separate processes, or
+                // instances configured through a symlink, would see it)
+                let dir = self.l1.data_dir();
+                let spelled = if k == 0 {
+                    dir.clone()
+                } else {
+                    // (Rust path equality ignores `.` components, so a symbolic link it is)
+                    let link = dir.with_file_name(format!("{}-alias{}", dir.file_name().unwrap().to_string_lossy(), k));
+                    let _ = std::os::unix::fs::symlink(&dir, &link);
+                    links.0.push(link.clone());
+                    if link.exists() { link } else { dir.clone() }
+                };
+                let st = SqliteStorage::new(&spelled).expect("open sqlite");
                 webs.push(WebServer::new(cfg(), allow.clone(), GateStorage { inner: Box::new(st), gate: gate.clone() }));
             }
         } else {
